@@ -682,3 +682,189 @@ def segmentations(rng, data, thorough=False, byte_cap=700):
         else:
             segs.append(('pairs', split_at(data, list(range(4096, len(data), 4096)))))
     return segs
+
+
+# ---------------------------------------------------------------- size-limit cases (C25)
+READ_QUANTUM = 4096
+
+
+def _fill(rng, n):
+    return bytes(rng.choice(b"abcdefghijklmnopqrstuvwxyz0123456789") for _ in range(min(n, 64))) * (n // 64 + 1)
+
+
+def _limit_request(rng, thorough):
+    """One valid request with a chosen header-section shape and body; -> bytes"""
+    shape = rng.choice(['normal', 'normal', 'one-long-header', 'many-short-headers', 'long-target'])
+    big = [200, 1000, 3000, 5000, 9000] + ([20000, 40000] if thorough else [])
+    method = rng.choice([b"POST", b"PUT", b"PATCH"])
+    target = b"/t"
+    lines = [b"Host: h"]
+    if shape == 'one-long-header':
+        lines.append(b"X-Long: " + _fill(rng, rng.choice(big))[:rng.choice(big)])
+    elif shape == 'many-short-headers':
+        for i in range(rng.choice([10, 50, 200, 400])):
+            lines.append(b"X-%d: v%d" % (i, i))
+    elif shape == 'long-target':
+        target = b"/" + _fill(rng, rng.choice(big))[:rng.choice(big)]
+    else:
+        for _ in range(rng.randrange(0, 4)):
+            lines.append(rng.choice(HDR_NAMES) + b": " + rng.choice([b"v", b"value with words", b""]))
+    bk = rng.choice(['none', 'cl', 'cl', 'chunked', 'chunked'])
+    n = rng.choice([0, 1, 2, 10, 100, 1000, 4096, 5000] + ([20000, 70000] if thorough else [9000]))
+    body = _fill(rng, n)[:n]
+    tail = b""
+    if bk == 'cl':
+        lines.append(b"Content-Length: %d" % n)
+        tail = body
+    elif bk == 'chunked':
+        lines.append(b"Transfer-Encoding: chunked")
+        k = rng.choice([1, 1, 2, 5])
+        cuts = sorted(set([0, n] + [rng.randrange(0, n + 1) for _ in range(k - 1)]))
+        for a, b_ in zip(cuts, cuts[1:]):
+            if b_ > a:
+                tail += b"%x\r\n" % (b_ - a) + body[a:b_] + b"\r\n"
+        tail += b"0\r\n"
+        if rng.random() < 0.25:
+            tail += b"X-Trailer: " + _fill(rng, 40)[:rng.choice([1, 10, 40])] + b"\r\n"
+        tail += b"\r\n"
+    if rng.random() < 0.1 and bk != 'none':
+        lines.append(b"Expect: 100-continue")
+    return method + b" " + target + b" HTTP/1.1\r\n" + b"\r\n".join(lines) + b"\r\n\r\n" + tail
+
+
+def _limit_response(rng, thorough):
+    shape = rng.choice(['normal', 'normal', 'one-long-header', 'many-short-headers', 'long-reason'])
+    big = [200, 1000, 3000, 5000, 9000] + ([20000, 40000] if thorough else [])
+    reason = b"OK"
+    lines = [b"Server: s"]
+    if shape == 'one-long-header':
+        lines.append(b"X-Long: " + _fill(rng, rng.choice(big))[:rng.choice(big)])
+    elif shape == 'many-short-headers':
+        for i in range(rng.choice([10, 50, 200, 400])):
+            lines.append(b"X-%d: v%d" % (i, i))
+    elif shape == 'long-reason':
+        reason = _fill(rng, rng.choice(big))[:rng.choice(big)]
+    bk = rng.choice(['cl', 'cl', 'chunked', 'chunked', 'close'])
+    n = rng.choice([0, 1, 2, 10, 100, 1000, 4096, 5000] + ([20000, 70000] if thorough else [9000]))
+    body = _fill(rng, n)[:n]
+    tail = b""
+    if bk == 'cl':
+        lines.append(b"Content-Length: %d" % n)
+        tail = body
+    elif bk == 'chunked':
+        lines.append(b"Transfer-Encoding: chunked")
+        k = rng.choice([1, 1, 2, 5])
+        cuts = sorted(set([0, n] + [rng.randrange(0, n + 1) for _ in range(k - 1)]))
+        for a, b_ in zip(cuts, cuts[1:]):
+            if b_ > a:
+                tail += b"%x\r\n" % (b_ - a) + body[a:b_] + b"\r\n"
+        tail += b"0\r\n\r\n"
+    else:
+        tail = body
+    return b"HTTP/1.1 200 " + reason + b"\r\n" + b"\r\n".join(lines) + b"\r\n\r\n" + tail, bk
+
+
+def _pick_limit(rng, exact_values):
+    """limit value from {unlimited, 0, 1, around the actual sizes, generous}"""
+    r = rng.random()
+    if r < 0.12:
+        return -1
+    if r < 0.17:
+        return 0
+    if r < 0.22:
+        return 1
+    if r < 0.35:
+        return max(exact_values) * 2 + 100
+    v = rng.choice(exact_values) + rng.choice([-2, -1, 0, 0, 1, 2])
+    return max(0, v)
+
+
+def gen_limit_case(rng, measure, thorough=False):
+    """-> dict(mode, data, opts, requests, end, tags, cfg).  `measure(kind, data)` returns the reference's
+    (hdr_content, hdr_wire, body_len) of the first message so that limits can be placed around the actual sizes."""
+    client = rng.random() < 0.3
+    r = rng.random()
+    if r < 0.28:
+        return _gen_limit_probe(rng, client, thorough)
+    if not client:
+        main = _limit_request(rng, thorough)
+        hc, hw, bl = measure('request', main)
+        mh = _pick_limit(rng, [hc, hw])
+        mb = _pick_limit(rng, [bl])
+        pre = b"GET /pre HTTP/1.1\r\nHost: h\r\n\r\n" if rng.random() < 0.2 else b""
+        post = rng.choice([b"", b"", b"GET /post HTTP/1.1\r\nHost: h\r\n\r\n", b"POST /post HTTP/1.1\r\nContent-Length: 3\r\n\r\nabc"])
+        ling = 1 if rng.random() < 0.4 else 0
+        opts = "mh=%d,mb=%d,ling=%d,hwcb=1" % (mh, mb, ling)
+        return dict(mode='S', data=pre + main + post, opts=opts, requests=[], end=None, tags=['limits-server', 'ling%d' % ling],
+                    cfg=dict(mh=mh, mb=mb, ling=ling))
+    main, bk = _limit_response(rng, thorough)
+    hc, hw, bl = measure('response', main)
+    mh = _pick_limit(rng, [hc, hw])
+    mb = _pick_limit(rng, [bl])
+    reqs = [b"GET"]
+    data = main
+    end = 'X' if (bk == 'close' or rng.random() < 0.4) else None
+    if bk != 'close' and rng.random() < 0.4:
+        reqs.append(b"GET")
+        data += b"HTTP/1.1 200 OK\r\nContent-Length: 2\r\n\r\nhi"
+    opts = "mh=%d,mb=%d,hwcb=1" % (mh, mb)
+    return dict(mode='C', data=data, opts=opts, requests=reqs, end=end, tags=['limits-client', 'body-' + bk], cfg=dict(mh=mh, mb=mb, ling=0))
+
+
+def _gen_limit_probe(rng, client, thorough):
+    """Streams whose oversized element is never terminated (or far beyond the limits): buffering must stay bounded."""
+    mh = rng.choice([0, 16, 64, 300, 1000, 3000])
+    mb = rng.choice([0, 16, 64, 300, 1000, 3000])
+    bound = mh + mb + READ_QUANTUM + 256
+    L = rng.choice([bound + 1000, 2 * bound, 3 * bound] + ([8 * bound] if thorough else []))
+    fill = _fill(rng, L)[:L]
+    if not client:
+        kind = rng.choice(['request-line', 'header-line', 'many-headers', 'chunk-size-line', 'chunk-ext', 'trailer-line', 'body-cl', 'body-chunk',
+                           'body-cl-expect'])
+        ling = 1 if (kind.startswith('body-cl') and rng.random() < 0.6) else 0
+        head = b"POST /p HTTP/1.1\r\nHost: h\r\n"
+        if kind == 'request-line':
+            data = b"GET /" + fill
+        elif kind == 'header-line':
+            data = head + b"X-Big: " + fill
+        elif kind == 'many-headers':
+            data = head + b"".join(b"X-%d: vvvvvvvv\r\n" % i for i in range(L // 16))
+        elif kind == 'chunk-size-line':
+            data = head + b"Transfer-Encoding: chunked\r\n\r\n" + rng.choice([b"0", b"00a", b"1"]) + rng.choice([b"0", b"1", b"a"]) * L
+        elif kind == 'chunk-ext':
+            data = head + b"Transfer-Encoding: chunked\r\n\r\n5 ;" + fill
+        elif kind == 'trailer-line':
+            data = head + b"Transfer-Encoding: chunked\r\n\r\n" + (b"1\r\nx\r\n" if mb >= 1 else b"") + b"0\r\nX-Trailer: " + fill
+        elif kind == 'body-cl':
+            data = head + b"Content-Length: %d\r\n\r\n" % L + fill + rng.choice([b"", b"GET /post HTTP/1.1\r\nHost: h\r\n\r\n"])
+        elif kind == 'body-cl-expect':
+            data = head + b"Expect: 100-continue\r\nContent-Length: %d\r\n\r\n" % L + fill + rng.choice([b"", b"GET /post HTTP/1.1\r\nHost: h\r\n\r\n"])
+        else:
+            data = head + b"Transfer-Encoding: chunked\r\n\r\n%x\r\n" % L + fill + b"\r\n0\r\n\r\n"
+        opts = "mh=%d,mb=%d,ling=%d,hwcb=1" % (mh, mb, ling)
+        return dict(mode='S', data=data, opts=opts, requests=[], end=None, tags=['probe-server', 'probe-' + kind, 'ling%d' % ling], cfg=dict(mh=mh, mb=mb, ling=ling))
+    kind = rng.choice(['status-line', 'header-line', 'many-headers', 'chunk-size-line', 'body-cl', 'body-chunk', 'body-close'])
+    head = b"HTTP/1.1 200 OK\r\nServer: s\r\n"
+    end = rng.choice([None, 'X'])
+    if kind == 'status-line':
+        data = b"HTTP/1.1 200 " + fill
+    elif kind == 'header-line':
+        data = head + b"X-Big: " + fill
+    elif kind == 'many-headers':
+        data = head + b"".join(b"X-%d: vvvvvvvv\r\n" % i for i in range(L // 16))
+    elif kind == 'chunk-size-line':
+        data = head + b"Transfer-Encoding: chunked\r\n\r\n" + b"0" * L
+    elif kind == 'body-cl':
+        data = head + b"Content-Length: %d\r\n\r\n" % L + fill
+    elif kind == 'body-chunk':
+        data = head + b"Transfer-Encoding: chunked\r\n\r\n%x\r\n" % L + fill + b"\r\n0\r\n\r\n"
+    else:
+        data = head + b"\r\n" + fill
+    opts = "mh=%d,mb=%d,hwcb=1" % (mh, mb)
+    return dict(mode='C', data=data, opts=opts, requests=[b"GET"], end=end, tags=['probe-client', 'probe-' + kind], cfg=dict(mh=mh, mb=mb, ling=0))
+
+
+def segmentations_big(rng, data, thorough=False):
+    """Segmentations for possibly large streams: one-shot, byte-at-a-time over the first bytes + coarse rest,
+    structural cuts (capped), random cuts; thorough adds 4096-byte blocks and another random one."""
+    return segmentations(rng, data, thorough=thorough, byte_cap=300)
